@@ -1141,3 +1141,32 @@ N('timer-rearm-with-sampled-now', ['C05', 'C12'], PROTO,
                     self.running_last_input_recv = Instant::now();""",
   """                    self.send_pending_output(connect_status);
                     self.running_last_input_recv = now;""", 're-arm with the reading taken at the top of poll')
+
+# ---------------------------------------------------------------- inventories
+M('D-effect-inside-debug-assert', ['C05', 'C18'], ['C05.K', 'C18.K'], PROTO,
+  """    fn on_input_ack(&mut self, body: InputAck) {
+        self.pop_pending_output(body.ack_frame);""",
+  """    fn on_input_ack(&mut self, body: InputAck) {
+        debug_assert!({
+            self.pop_pending_output(body.ack_frame);
+            true
+        });""", 'the ack is applied inside a debug_assert!: release builds never release acknowledged inputs')
+M('S-lost-writer-disconnect-frame', ['C04', 'C07'], ['C04.S', 'C07.S'], P2P,
+  """            self.adjust_gamestate(first_incorrect, confirmed_frame, requests);
+            self.disconnect_frame = NULL_FRAME;""",
+  """            self.adjust_gamestate(first_incorrect, confirmed_frame, requests);""", 'the pending disconnect frame is never cleared')
+M('K-lost-call-flush', ['C11', 'C05'], ['C11.K', 'C05.K', 'C11.M', 'C05.M'], P2P,
+  """                self.queue_outgoing_local_input(handle, queued_input);
+            }
+        }
+        self.send_ready_outgoing_inputs_to_remotes();
+    }""",
+  """                self.queue_outgoing_local_input(handle, queued_input);
+            }
+        }
+    }""", 'the flush after registering local inputs deleted (set_input_delay still flushes)')
+M('D-effect-inside-trace', ['C05', 'C18'], ['C05.K', 'C18.K'], PROTO,
+  """    fn on_input_ack(&mut self, body: InputAck) {
+        self.pop_pending_output(body.ack_frame);""",
+  """    fn on_input_ack(&mut self, body: InputAck) {
+        trace!("ack {} released: {:?}", body.ack_frame, self.pop_pending_output(body.ack_frame));""", 'the ack is applied inside the arguments of trace!: evaluated only when a subscriber enables TRACE')
